@@ -51,6 +51,8 @@ Print Assumptions C11_stop_monotone.
 Theorem C11_skeleton_tie :
   sk_Process_Solve = expected_sk_Process_Solve /\ sk_Process_DoGlobalIteration = expected_sk_Process_DoGlobalIteration /\
   sk_Process_init = expected_sk_Process_init /\ solver_delegation = expected_solver_delegation /\ solver_components = expected_solver_components /\
-  sk_Method_init = expected_sk_Method_init.
+  sk_Method_init = expected_sk_Method_init /\
+  configuration_object_writes = [] /\ mutable_defaults_written = [] /\ class_level_mutables = [] /\ module_level_mutables = [].
+  (* the library writes nothing into the parameters / problem objects it is given, so repeating a run with the same objects repeats it *)
 Proof. repeat split; reflexivity. Qed.
 Print Assumptions C11_skeleton_tie.
